@@ -66,6 +66,8 @@ func registerFamily(id string, mk func() *clustermc.Family) {
 func init() {
 	registerFamily("C01", C01)
 	registerFamily("C02", C02)
+	registerFamily("C03", C03)
+	registerFamily("C06", C06)
 }
 
 var _ = engine.VerifDir
